@@ -150,3 +150,18 @@ def fresh_models():
         SchemaCheckSwitch().on()
     except Exception:
         pass
+    # One trivial evaluation per frame type with the freshly registered default models passed explicitly: whatever
+    # association "frame type -> model" the library may keep outside the registry now points at the new defaults, as it
+    # would in a new process (public API only; a no-op for the behaviour of the pinned tree).
+    try:
+        import pandas as pd
+        import polars as pl
+        from data_algebra.data_ops import descr
+
+        tiny = pd.DataFrame({"x": [1]})
+        dm = data_algebra.data_model.data_model_type_map
+        descr(d=tiny).eval({"d": tiny}, data_model=dm["default_Pandas_model"])
+        descr(d=pl.DataFrame(tiny)).eval({"d": pl.DataFrame(tiny)}, data_model=dm["default_Polars_model"])
+        descr(d=pl.DataFrame(tiny)).eval({"d": pl.DataFrame(tiny).lazy()}, data_model=dm["default_Polars_model"])
+    except Exception:
+        pass
